@@ -1,6 +1,7 @@
 """E-ORDER: must-pass-through, ordering and typestate obligations decided on
 per-function CFGs."""
 import ast
+import re
 
 from .core import (AnalysisError, dotted, norm, walk_local, const_int,
                    enclosing_stmt_map, stmts_of, block_always_raises,
@@ -32,7 +33,9 @@ def validation_dominates_io(repo, col):
     rule = "E-ORDER.validate-before-io"
     for meth, io_attr in (("write_chunk", "store_chunk"),
                           ("read_chunk", "fetch_chunk")):
-        fn = repo.func("precomputed_io", "PrecomputedIO." + meth, inline=True)
+        from .core import inline_view
+        fn = inline_view(repo.func("precomputed_io", "PrecomputedIO." + meth),
+                         keep=("validate_chunk_coords",))
         cfg = fn.cfg()
         owner = enclosing_stmt_map(fn.node)
         io_calls = _calls(fn, lambda c: _attr_call(c, io_attr))
@@ -207,6 +210,25 @@ def _scale_sources(fn, defs, direct_only=False):
             if "['scales'][" in t:
                 which = "new" if "+ 1" in t or "+1" in t else "old"
                 scale_of[name] = which
+            elif any(isinstance(x_, ast.Call) for x_ in ast.walk(d.value)):
+                # a record of the scale built by a helper from the scale
+                # index: helper(info, i) / helper(info, i + 1)
+                from .dataflow import single_defs as _sd, expand as _ex
+                idxp = {p_ for p_ in fn.params if "index" in p_}
+                tab_ = _sd(fn.node)
+                call_ = [x_ for x_ in ast.walk(d.value)
+                         if isinstance(x_, ast.Call)][0]
+                for a_ in [_ex(y_, tab_) for y_ in list(call_.args) +
+                           [k.value for k in call_.keywords]]:
+                    if isinstance(a_, ast.Name) and a_.id in idxp:
+                        scale_of.setdefault(name, "old")
+                    elif isinstance(a_, ast.BinOp) and \
+                            isinstance(a_.op, ast.Add) and \
+                            isinstance(a_.left, ast.Name) and \
+                            a_.left.id in idxp and \
+                            isinstance(a_.right, ast.Constant) and \
+                            a_.right.value == 1:
+                        scale_of[name] = "new"
 
     def plain(v):
         """Value that only renames / indexes / converts other names."""
@@ -244,6 +266,14 @@ def _scale_sources(fn, defs, direct_only=False):
                 if direct_only and not plain(d.value):
                     continue
                 for sub in walk_local(d.value):
+                    if isinstance(sub, ast.Attribute) and \
+                            sub.attr in ("size", "chunk_size",
+                                         "chunk_sizes") and \
+                            isinstance(sub.value, ast.Name) and \
+                            scale_of.get(sub.value.id):
+                        tags.add((scale_of[sub.value.id],
+                                  "size" if sub.attr == "size"
+                                  else "chunk_sizes"))
                     if isinstance(sub, ast.Subscript) and \
                             isinstance(sub.slice, ast.Constant) and \
                             sub.slice.value in ("size", "chunk_sizes"):
@@ -894,6 +924,8 @@ def shard_index_last(repo, col):
         a = first[0].args[0] if first[0].args else None
         if a is not None:
             a = expand(a, single_defs(fn.node))
+            from .core import expand_properties
+            a = expand_properties(repo, fn.module, a)
         txt = norm(a)
         zero = isinstance(a, ast.BinOp) and isinstance(a.op, ast.Mult) and any(
             isinstance(s, ast.Constant) and s.value in (b"\0", b"\x00")
@@ -908,12 +940,24 @@ def shard_index_last(repo, col):
             raw = norm(first[0].args[0])
             fin2 = norm(expand(last[0][0].args[0], single_defs(fn.node)))
             length_ok = ("len(%s)" % fin) in raw or ("len(%s)" % fin2) in txt
-        col.add(rule, fn, "first write(%s)" % txt, zero and length_ok,
+        # positively wrong: not zeros, or 2**minishard_bits times a
+        # constant other than the 16 bytes of an entry
+        mult = re.findall(r"minishard_bits\)* \* (\d+)", txt) + \
+            re.findall(r"(\d+) \* \(*2 \*\* ", txt)
+        wrong = not zero or (("minishard_bits" in txt and bool(mult) and
+                              "16" not in mult)) or \
+            (isinstance(a, ast.BinOp) and any(
+                isinstance(s_, ast.Constant) and isinstance(s_.value, int)
+                for s_ in (a.left, a.right)))
+        und = not (zero and length_ok) and not wrong
+        col.add(rule, fn, "first write(%s)" % txt[:80],
+                (zero and length_ok) or und,
                 "a zero placeholder of exactly the index length is written "
                 "first, so an interrupted shard lists no chunk"
                 if zero and length_ok else
                 "the first write is not a zero placeholder of the shard-index "
-                "length (2**minishard_bits * 16)", node=first[0])
+                "length (2**minishard_bits * 16)", node=first[0],
+                undecided=und)
     # normal exit passes the seek
     okp = cfg.every_path_passes(cfg.node_of(with_stmt), cfg.exit, [S])
     col.add(rule, fn, "every normal exit writes the index", okp,
